@@ -66,6 +66,9 @@ impl Shutdown {
 
     /// Tell the things to do graceful shutdowns. See [`Notification::wait()`].
     pub fn submit(&self) {
+        // logged before the send: every `WaitEnd` the send causes comes later in the log
+        #[cfg(trusttunnel_verif)]
+        crate::verif_emit!("Submit", "\"rx\":{}", self.notify_tx.receiver_count());
         if let Err(e) = self.notify_tx.send(()) {
             debug!("Failed to submit: {}", e);
         }
@@ -73,9 +76,14 @@ impl Shutdown {
 
     /// Wait until all the things commit graceful shutdowns
     pub async fn completion(&mut self) {
+        // emits `CompletionBegin` now and `CompletionCancel` if this future is dropped unfinished
+        #[cfg(trusttunnel_verif)]
+        let mut verif_scope = crate::verif::shutdown::CompletionScope::begin();
         self.shutdown_complete_tx = None;
         // receiver returns `None` after all the senders are dropped
         let _ = self.shutdown_complete_rx.recv().await;
+        #[cfg(trusttunnel_verif)]
+        verif_scope.end();
     }
 
     /// Get a completion handler which is used to notify the application level of
@@ -83,6 +91,13 @@ impl Shutdown {
     /// is dropped.
     /// May return [`None`] in case shutdown has already been committed.
     pub(crate) fn completion_guard(&self) -> Option<CompletionGuard> {
+        #[cfg(trusttunnel_verif)]
+        crate::verif_emit!(
+            "GuardClone",
+            "\"p\":{},\"some\":{}",
+            crate::verif::shutdown::current(),
+            self.shutdown_complete_tx.is_some()
+        );
         self.shutdown_complete_tx
             .as_ref()
             .cloned()
@@ -92,6 +107,8 @@ impl Shutdown {
     /// Get a notification handler which is used to initiate graceful shutdowns
     /// in the things from the application level
     pub(crate) fn notification_handler(&self) -> Notification {
+        #[cfg(trusttunnel_verif)]
+        crate::verif_emit!("Subscribe", "\"p\":{}", crate::verif::shutdown::current());
         Notification {
             notify_rx: self.notify_tx.subscribe(),
         }
@@ -101,12 +118,56 @@ impl Shutdown {
 impl Notification {
     /// Wait for a notification from the application level to initiate a graceful shutdown
     pub(crate) async fn wait(&mut self) -> Result<(), NotificationError> {
+        #[cfg(trusttunnel_verif)]
+        crate::verif_emit!("WaitBegin", "\"p\":{}", crate::verif::shutdown::current());
         loop {
             match self.notify_rx.recv().await {
                 Ok(_) => break Ok(()),
                 Err(broadcast::error::RecvError::Lagged(_)) => continue,
                 Err(broadcast::error::RecvError::Closed) => break Err(NotificationError::Closed),
             }
+        }
+    }
+}
+
+/// Verification hooks and accessors (compiled only with `--cfg trusttunnel_verif`)
+#[cfg(trusttunnel_verif)]
+mod verif_hooks {
+    use super::*;
+
+    impl Drop for CompletionGuard {
+        fn drop(&mut self) {
+            // logged before the sender inside is dropped: `CompletionEnd` comes later in the log
+            crate::verif_emit!("GuardDrop", "\"p\":{}", crate::verif::shutdown::current());
+        }
+    }
+
+    impl Notification {
+        /// [`Notification::wait`] with its outcome logged after it returned
+        pub(crate) async fn verif_wait(&mut self) -> Result<(), NotificationError> {
+            let r = self.wait().await;
+            crate::verif_emit!(
+                "WaitEnd",
+                "\"p\":{},\"res\":\"{}\"",
+                crate::verif::shutdown::current(),
+                if r.is_ok() { "ok" } else { "closed" }
+            );
+            r
+        }
+
+        /// Messages sent to this receiver and not yet taken (more than the capacity: lagging)
+        pub(crate) fn verif_pending(&self) -> usize {
+            self.notify_rx.len()
+        }
+    }
+
+    impl Shutdown {
+        pub(crate) fn verif_receiver_count(&self) -> usize {
+            self.notify_tx.receiver_count()
+        }
+
+        pub(crate) fn verif_has_original_sender(&self) -> bool {
+            self.shutdown_complete_tx.is_some()
         }
     }
 }
